@@ -83,6 +83,10 @@ def py_eq(a, b):
     """Python `==` -> bool | SBool.  (bool/int identification is ignored: True == 1 is not modelled.)"""
     if a is b and not isinstance(a, float):
         return True
+    if hasattr(a, "py_eq"):
+        return a.py_eq(b)
+    if hasattr(b, "py_eq"):
+        return b.py_eq(a)
     if isinstance(a, SPy) or isinstance(b, SPy):
         try:
             return mk_bool(to_pyval(a) == to_pyval(b))
@@ -211,6 +215,8 @@ def truth(v):
     """Python truthiness -> bool | SBool"""
     if isinstance(v, (bool, SBool)):
         return v
+    if hasattr(v, "py_truth"):
+        return v.py_truth()
     if v is None:
         return False
     if isinstance(v, int):
